@@ -83,6 +83,9 @@ def run(ck, prog, ctx):
             key = "annotate_%s/%s" % (stem, "record" if sites is adds else "propagate")
             ok = bool(sites) and all(any(b.dominates(bi, pos[0]) for bi, _ in sites) for pos in oks)
             ck.ob("PAIR", key, ok, "annotate_%s %s on every success path" % (stem, what) if ok else "annotate_%s can return Ok without having %s" % (stem, what.replace("records", "recorded").replace("propagates", "propagated")), where=b.where())
+        creates = [(bi, t) for bi, t in b.calls() if t.callee.res == B + "add_" + stem] + [(bi, t) for bi, t in b.calls() if t.callee.method in ("entry", "insert") and plural in field_names(pvn.of_operand(b, t.args[0]), "Builder")]
+        okc = bool(creates) and all(any(b.dominates(bi, pos[0]) for bi, _ in creates) for pos in oks)
+        ck.ob("PAIR", "annotate_%s/creates-record" % stem, okc, "annotate_%s %s" % (stem, "creates the %s record (if missing) on every success path" % K if okc else "can succeed without the %s record existing in the ontology: the term would carry a dangling id" % K), where=b.where())
         # argument roles
         pn = {v: k for k, v in b.arg_names.items()}
         term_p = next((p for p, nm in b.arg_names.items() if "term" in nm), 4)
